@@ -105,6 +105,7 @@ func c10Produce(c *runner.Ctx, w iceImpl) (b []byte, desc string, kind string, e
 		var mode uint32
 		if jumbo {
 			docs, _ = gen.JumboBatch(r, 1100+r.Intn(2200), fmt.Sprintf("j%d", c.Idx))
+			gen.AddExactTerms(r, docs, "exact", gen.ExactSpec(len(docs)))
 			mode = []uint32{1025, 1024, 100}[r.Intn(3)]
 		} else {
 			n := gen.BatchSize(r)
@@ -130,11 +131,18 @@ func c10Produce(c *runner.Ctx, w iceImpl) (b []byte, desc string, kind string, e
 	var drops []*roaring.Bitmap
 	desc = "merger output:"
 	tagDV := r.Intn(2) == 0
+	sizes := make([]int, k)
+	for i := range sizes {
+		sizes[i] = 600 + r.Intn(900)
+	}
+	exact := gen.SplitExact(r, sizes)
+	noDrops := jumbo && r.Intn(2) == 0 // then the merged terms m1024/m2048 have exactly that many documents
 	for i := 0; i < k; i++ {
 		var docs []*model.MDoc
 		var mode uint32
 		if jumbo {
-			docs, _ = gen.JumboBatch(r, 600+r.Intn(900), fmt.Sprintf("j%d.%d", c.Idx, i), tagDV)
+			docs, _ = gen.JumboBatch(r, sizes[i], fmt.Sprintf("j%d.%d", c.Idx, i), tagDV)
+			gen.AddExactTerms(r, docs, "exact", exact[i])
 			mode = []uint32{1025, 1024, 64}[r.Intn(3)]
 		} else {
 			s2 := sch
@@ -155,6 +163,9 @@ func c10Produce(c *runner.Ctx, w iceImpl) (b []byte, desc string, kind string, e
 		}
 		segs = append(segs, s)
 		d := gen.Drops(r, len(docs), -1)
+		if noDrops {
+			d = nil
+		}
 		drops = append(drops, d)
 		ds := "nil"
 		if d != nil {
